@@ -4,6 +4,8 @@ import (
 	"encoding/json"
 	"fmt"
 	"os"
+	"sort"
+	"strings"
 
 	openfgav1 "github.com/openfga/api/proto/openfga/v1"
 	"google.golang.org/protobuf/encoding/protojson"
@@ -139,7 +141,7 @@ func ReplayCheck(c *vk.Ctx, path string) {
 // with the reference (any non-agree verdict).
 func minimize(c *vk.Ctx, model, perm *openfgav1.AuthorizationModel, stored, contextual []*openfgav1.TupleKey, rctx *structpb.Struct, object, relation, user string, mode drive.Mode) []*openfgav1.TupleKey {
 	rm := ref.NewModel(model, ref.TemplateCondEval)
-	srv, err := drive.New(drive.Cfg{})
+	srv, err := drive.New(drive.Cfg{V2: os.Getenv("VERIF_MINIMIZE") == "v2"})
 	if err != nil {
 		return stored
 	}
@@ -160,6 +162,9 @@ func minimize(c *vk.Ctx, model, perm *openfgav1.AuthorizationModel, stored, cont
 		for i := 0; i < 3; i++ {
 			o := srv.Check(drive.Req{Store: p.Store, Object: object, Relation: relation, User: user, Ctx: rctx, Contextual: contextual})
 			v := JudgeCheck(k, rc.AnyUnevaluable(), o)
+			if os.Getenv("VERIF_DEBUG") != "" {
+				fmt.Printf("  minimize: %d tuples -> k=%s answer=%s verdict=%s\n", len(ts), k, o, v)
+			}
 			if v != Agree && v != NotJudged {
 				if wantV == -1 {
 					wantV, wantK = v, k
@@ -187,4 +192,108 @@ func minimize(c *vk.Ctx, model, perm *openfgav1.AuthorizationModel, stored, cont
 		}
 	}
 	return cur
+}
+
+// ReplayList re-executes a ListObjects witness on the three engines, optionally (VERIF_MINIMIZE)
+// shrinking the stored tuples while the named engine still deviates from the reference set.
+func ReplayList(c *vk.Ctx, path string) {
+	b, err := os.ReadFile(path)
+	if err != nil {
+		c.HarnessError("replay: %v", err)
+		return
+	}
+	var doc struct {
+		Witness wire `json:"witness"`
+	}
+	if err := json.Unmarshal(b, &doc); err != nil {
+		c.HarnessError("replay: %v", err)
+		return
+	}
+	w := doc.Witness
+	model := &openfgav1.AuthorizationModel{}
+	perm := &openfgav1.AuthorizationModel{}
+	if err := protojson.Unmarshal(w.Model, model); err != nil {
+		c.HarnessError("replay: model: %v", err)
+		return
+	}
+	_ = protojson.Unmarshal(w.Permissive, perm)
+	parse := func(raw []json.RawMessage) []*openfgav1.TupleKey {
+		var out []*openfgav1.TupleKey
+		for _, r := range raw {
+			tk := &openfgav1.TupleKey{}
+			if err := protojson.Unmarshal(r, tk); err == nil {
+				out = append(out, tk)
+			}
+		}
+		return out
+	}
+	stored, contextual := parse(w.Stored), parse(w.Contextual)
+	var rctx *structpb.Struct
+	if len(w.Ctx) > 0 {
+		rctx = &structpb.Struct{}
+		_ = protojson.Unmarshal(w.Ctx, rctx)
+	}
+	rm := ref.NewModel(model, ref.TemplateCondEval)
+	typ, rel, user := w.Request.Object, w.Request.Relation, w.Request.User
+	engines := []string{"classic", "optimized", "pipeline"}
+	answers := func(ts []*openfgav1.TupleKey) (want []string, got map[string]string) {
+		got = map[string]string{}
+		rc := ref.NewCase(rm, append(append([]*openfgav1.TupleKey{}, ts...), contextual...), rctx, user)
+		want, _ = RefListObjects(rc, typ, rel, user)
+		base, err := drive.New(drive.Cfg{})
+		if err != nil {
+			return
+		}
+		defer base.Close()
+		gc := &gen.Case{Name: "replay", Model: model, Permissive: perm}
+		store, _ := base.CreateStore("replay")
+		p, err := Install(c, base, gc, store, ts)
+		if err != nil {
+			return
+		}
+		for _, e := range engines {
+			s, err := drive.NewShared(drive.Cfg{LOEngine: e}, base)
+			if err != nil {
+				continue
+			}
+			lo := s.ListObjects(drive.Req{Store: p.Store, Object: typ, Relation: rel, User: user, Ctx: rctx, Contextual: contextual})
+			if lo.Err != nil {
+				got[e] = "error: " + drive.ErrDetail(lo.Err)
+			} else {
+				items := append([]string{}, lo.Items...)
+				sort.Strings(items)
+				got[e] = strings.Join(items, ",")
+			}
+			s.Close()
+		}
+		return
+	}
+	if eng := os.Getenv("VERIF_MINIMIZE"); eng != "" {
+		bad := func(ts []*openfgav1.TupleKey) bool {
+			want, got := answers(ts)
+			return got[eng] != strings.Join(want, ",")
+		}
+		if bad(stored) {
+			for changed := true; changed; {
+				changed = false
+				for i := 0; i < len(stored); i++ {
+					cand := append(append([]*openfgav1.TupleKey{}, stored[:i]...), stored[i+1:]...)
+					if bad(cand) {
+						stored = cand
+						changed = true
+						i--
+					}
+				}
+			}
+		}
+	}
+	want, got := answers(stored)
+	fmt.Printf("REPLAY %s\n%s\nstored: %v\ncontextual: %v\nListObjects(%s, %s, %s) ctx=%s\nreference: %v\n", path, rm.DSL(), gen.TupleStrings(stored), gen.TupleStrings(contextual), typ, rel, user, gen.CtxString(rctx), want)
+	for _, e := range engines {
+		fmt.Printf("  engine %-10s -> [%s]\n", e, got[e])
+		c.Case("replay|"+e, true)
+		if got[e] != strings.Join(want, ",") {
+			c.Violation("", "replay|"+e, fmt.Sprintf("replayed: engine %s returned [%s], reference %v", e, got[e], want), map[string]any{"file": path})
+		}
+	}
 }
